@@ -18,7 +18,8 @@ C07 line-protocol driver (fields separated by one space; byte strings hex, `-` =
                       byte, and no `t`: the browse parameters limit/offset are not modelled)
         [via]         optional, after query: s | j | c (configuration delivered as struct literal / JSON /
                       Caddyfile tokens), optionally followed by `d`: index_names omitted (index must be `.`)
-        → <outcome> | <names handed to the FS: hex,… or .>
+        [etag]        optional, after via: etag_file_extensions (`.` | hex,hex,…)
+        → <outcome>[ etag <hexname> <id>] | <names handed to the FS: hex,… or .>
           outcome = notfound | passthru | forbidden | error | unavailable
                   | redirect [<hex Location>]   (Location only when <orig> starts with `/`)
                   | file <hexpath> <id> | listing <hexpath> <hexname,… or .>
@@ -139,6 +140,7 @@ def showOutcome : Outcome → String
   | .file p id => "file " ++ Hex.encode p ++ " " ++ toString id
   | .listing p ns => "listing " ++ Hex.encode p ++ " " ++ showList ns
   | .sidecar p id enc => "sidecar " ++ Hex.encode p ++ " " ++ toString id ++ " " ++ Hex.encode enc
+  | .withEtag o n id => showOutcome o ++ " etag " ++ Hex.encode n ++ " " ++ toString id
 
 /-- the precompressed modules that exist: gzip ↦ .gz, br ↦ .br, zstd ↦ .zst -/
 def precompressors (g b z : Bool) : List (Bytes × Bytes) :=
@@ -154,9 +156,6 @@ def showGlob : Option Bool → String
   | some true => "true"
   | some false => "false"
 
-/-- `defaultIndexNames` (staticfiles.go), what `Provision` puts in place of an omitted `index_names` -/
-def defaultIndexNames : List Bytes := [str "index.html", str "index.txt"]
-
 /-- the `via` field: how the configuration reached the FileServer (struct literal, JSON through
     `LoadModuleByID`, Caddyfile tokens through `UnmarshalCaddyfile`) — the model is the same for
     all three — optionally followed by `d`: `index_names` omitted (the index field must be `.`) -/
@@ -167,9 +166,9 @@ def parseVia (s : String) : Option Bool :=
   | _ => none
 
 def handleServe (cwd root hide index flags path orig tree pre enc : String) (query : String := "-")
-    (via : String := "s") : String :=
-  match parseList enc, pre.toList.mapM parseBit, Hex.decode query, parseVia via with
-  | some accepted, some [pg, pb, pz], some query, some dflt =>
+    (via : String := "s") (etag : String := ".") : String :=
+  match parseList enc, pre.toList.mapM parseBit, Hex.decode query, parseVia via, parseList etag with
+  | some accepted, some [pg, pb, pz], some query, some dflt, some etagExt =>
     if dflt && index != "." then "bad-op" else
     if query.any (fun c => isCTL c || c = 35 || c = 32 || c ≥ 128 || c = 116) then "bad-op" else
     (match Hex.decode cwd, Hex.decode root, parseList hide, parseList index, flags.toList.mapM parseBit,
@@ -181,11 +180,12 @@ def handleServe (cwd root hide index flags path orig tree pre enc : String) (que
       if !isRooted cwd || pathClean cwd ≠ cwd || !validTree tree then "bad-op"
       else
         let r := serve (treeFS cwd tree)
-          ⟨cwd, root, hide, if dflt then defaultIndexNames else index, b, pt, cn, precompressors pg pb pz,
-            accepted, query⟩ path orig
+          { cwd := cwd, root := root, hide := hide, index := if dflt then defaultIndexNames else index,
+            browse := b, passThru := pt, canonical := cn, pre := precompressors pg pb pz,
+            accepted := accepted, etagExt := etagExt, query := query } path orig
         showOutcome r.1 ++ " | " ++ showList r.2
     | _, _, _, _, _, _, _, _ => "bad-op")
-  | _, _, _, _ => "bad-op"
+  | _, _, _, _, _ => "bad-op"
 
 def handleServeFields : List String → String
   | [cwd, root, hide, index, flags, path, orig, tree] =>
@@ -196,6 +196,8 @@ def handleServeFields : List String → String
     handleServe cwd root hide index flags path orig tree pre enc query
   | [cwd, root, hide, index, flags, path, orig, tree, pre, enc, query, via] =>
     handleServe cwd root hide index flags path orig tree pre enc query via
+  | [cwd, root, hide, index, flags, path, orig, tree, pre, enc, query, via, etag] =>
+    handleServe cwd root hide index flags path orig tree pre enc query via etag
   | _ => "bad-op"
 
 /-- `n` (no fault), `t` (failing template) or `w<k>` (client takes k bytes), k in canonical decimal -/
@@ -234,6 +236,8 @@ def handle : List String → String
     handleServe cwd root hide index flags path orig tree pre enc query
   | ["serve", cwd, root, hide, index, flags, path, orig, tree, pre, enc, query, via] =>
     handleServe cwd root hide index flags path orig tree pre enc query via
+  | ["serve", cwd, root, hide, index, flags, path, orig, tree, pre, enc, query, via, etag] =>
+    handleServe cwd root hide index flags path orig tree pre enc query via etag
   | "pair" :: fault :: rest =>
     -- a faulted browse request A, then request B on another instance; by
     -- `Props.browse_history_independent` the answer is B's own answer
@@ -256,5 +260,8 @@ end CaddyModel.C07
 
 namespace CaddyModel.C07
 /-- counter-example lines replayed on the implementation on every run (see Witness.lean) -/
-def witnessLines : List String := []
+def witnessLines : List String := [
+  -- Props.etag_honours_hide_full_fails: root /srv, hide *.etag, etag_file_extensions .etag, GET /a.txt
+  -- →  the content of the hidden /srv/a.txt.etag in the Etag header
+  "C07 serve 2f77 2f737276 2a2e65746167 . 101 2f612e747874 2f612e747874 2f737276:d;2f7372762f612e747874:f1;2f7372762f612e7478742e65746167:f2 000 . - s 2e65746167"]
 end CaddyModel.C07
